@@ -6,7 +6,7 @@ import json, os, shutil, re, sys
 SEEDS = {
  # name: (property, needs, caught_by, how)
  "C01-1": ("C01", "the same nested entity field selected at one response path twice - directly on an interface-typed parent and inside a type-conditioned fragment - with the field served by another subgraph and an object of a different implementing type in the data (deduplicate_single_fetches.mergeTypeNames narrows the type scope)", "C01 quick", "caught after strengthening (S-abs Media.by on the interface, base layout with Author.name remote, decoration 'same field again under a fragment on one implementer'): clause 'gateway data equals the data of a single server'"),
- "C01-2": ("C01", "a compound key \"id sku\" whose @external member is not last, with the target subgraph reachable only through that compound key (route a -(sku)-> c -(id sku)-> b)", "MISSED", "not caught: the layout space has no per-subgraph key subsets and no @external key members (every subgraph that mentions an entity declares all of its keys); recorded as a limit in DESIGN.md 8.5"),
+ "C01-2": ("C01", "a compound key \"id sku\" whose @external member is not last, with the target subgraph reachable only through that compound key (route a -(sku)-> c -(id sku)-> b)", "C01 quick", "missed as built; caught after the S-keys family was added (per-subgraph key subsets, @external key members, implicit keys, compound keys, three subgraphs): planning failures and data differences on two-jump routes; building the family first exposed a genuine defect in the same visitor (fixed in 9022f57)"),
  "C02-1": ("C02", "an abstract plan object with exactly one possible type and a payload object without __typename at that position", "C02 quick", "caught after strengthening by the check's author (shapes I1 / U1 with a single possible type)"),
  "C02-2": ("C02", "two offending values in one payload: first a failing element of a nullable list field (absorbed), then a later position that is null / ill-typed - only the later error's path is corrupted", "C02 quick", "caught after strengthening (sibling fields k / z around the field under test, clause 'every error path is a path of the selected response shape')"),
  "C05-1": ("C05", "ParseWithLimits with MaxFields > 0 and the token sequence `...` `{` IDENT (bare untyped inline fragment starting with a field)", "C05 quick", "caught as built: limits clause, site 'field count', minimal input {...{a a}}"),
@@ -38,11 +38,11 @@ SEEDS = {
  "C17-1": ("C17", "several __type(name:) queries of the SAME shape on ONE engine (cached plan, same Source) with different names: the introspection source caches its first answer (sync.Once in (*Source).Load)", "C17 quick", "missed as built (every lookup sat in one aliased batch, each operation shape executed once); caught after strengthening by the check's author (histories of same-shaped __type queries, inline literal and variable form): 4 new fingerprints"),
  "C17-2": ("C17", "an interface that implements another interface, converted JSON -> SDL", "C17 quick", "caught as built (it re-introduces the fixed finding 1921ce8; the fixed entry suppresses nothing)"),
  "C18-1": ("C18", "two subscriptions A, B on one WebSocket connection, idle timeout 0, cancel(A) inside its protocol-level unsubscribe write while the upstream's own complete/error for A is dispatched: removeSub runs twice for A, the 'was this the last one' test counts B", "C18 quick", "caught as built on the repaired tree (fingerprint of the fixed finding N1: 'a complete or error for one subscription ends only that one'); the original patch no longer applies after fix adf3a13 - patch_ported.diff is the same edit on the current removeSub"),
- "C18-2": ("C18", "two live subscriptions whose connection_init payloads are different JSON that render identically under %v ({\"tenant\":\"42\"} vs {\"tenant\":42})", "MISSED (author resumed)", "missed as built: the option tuples differ in visibly different characters only; the check's author was asked to add all ordered pairs of a collision-oriented option menu"),
- "C12-1": ("C12", "an update already inside writer.Write / Flush (slow client) at the moment of removal: done() closes `completed` without taking writeMu", "MISSED (author resumed after the fixes)", "missed in quick: the harness writer's Write / Flush are not scheduling points, so no removal can land inside a write"),
+ "C18-2": ("C18", "two live subscriptions whose connection_init payloads are different JSON that render identically under %v ({\"tenant\":\"42\"} vs {\"tenant\":42})", "C18 quick", "missed as built (option tuples differed in visibly different characters only); caught after strengthening by the check's author (all 1233 ordered pairs of a collision-oriented option menu, class per collision family): 3 new fingerprints"),
+ "C12-1": ("C12", "an update already inside writer.Write / Flush (slow client) at the moment of removal: done() closes `completed` without taking writeMu", "C12 quick", "missed as built (the harness writer's calls were atomic steps); caught after strengthening by the check's author (a scheduling point inside the first Write of each message and inside Flush/Complete/Error/Heartbeat; the late-write clause is also judged when a call LEAVES the writer): 2 new fingerprints"),
  "C12-2": ("C12", "a subscriber with heartbeats, a Flush slow enough to span a heartbeat tick: writeMu released before Flush", "C12 quick", "caught as built (3 new fingerprints: overlapping writer calls)"),
- "C13-1": ("C13", "the trigger detached before Source.Start returns nil (last subscriber leaves during Start, or the source reports failure from inside Start as Error(); Done(); return nil), with a Reporter configured", "MASKED by known finding H2", "not reported while the genuine defect H2 (late TriggerCountInc) is a known finding: same clause, site and class; to be re-run after the H2 fix is cherry-picked"),
- "C13-2": ("C13", "two live subscriptions to one subgraph with byte-identical operation and headers that differ only in initial_payload (SubscriptionSource.HashTriggerInput hashes selected fields)", "MISSED (author resumed after the fixes)", "missed as built: the harness uses its own source with its own HashTriggerInput; the real graphql_datasource SubscriptionSource's hashing is not driven"),
+ "C13-1": ("C13", "the trigger detached before Source.Start returns nil (last subscriber leaves during Start, or the source reports failure from inside Start as Error(); Done(); return nil), with a Reporter configured", "C13 quick (ported patch)", "masked while the genuine defect H2 (late TriggerCountInc, same clause/site/class) was a known finding; after the H2/H3 fixes were cherry-picked the ported edit (patch_ported.diff: markTriggerInitialized trusts the captured trigger) is caught: 2 fingerprints"),
+ "C13-2": ("C13", "two live subscriptions to one subgraph with byte-identical operation and headers that differ only in initial_payload (SubscriptionSource.HashTriggerInput hashes selected fields)", "C13 quick", "missed as built (the harness hashed with its own source); caught after strengthening by the check's author (part E: all 841 ordered pairs of a 29-item collision-oriented menu of subscription inputs through the REAL SubscriptionSource hashing and the real resolver): initial_payload differs / ws_sub_protocol differs"),
  "C20-1": ("C20", "ONE gRPC DataSource used for several Loads with different variables (sequential with a resolver nested in a resolver and an empty second root result, or two interleaved Loads): call dependency graph shared across Loads", "MISSED (author resumed)", "missed as built: a fresh DataSource per case / no Load histories on one instance"),
  "C20-2": ("C20", "__typename selected under an ALIAS on an interface / union typed selection", "MISSED (author resumed)", "missed as built: aliases are not applied to __typename"),
 }
